@@ -37,6 +37,10 @@ func registerJSON(e *Engine) {
 		}
 		return Tuple{Slice{a: []Value{tk}}, nilError()}
 	})
+	reg("encoding/json.Valid", func(th *Thread, fn *ssa.Function, a []Value) Value {
+		_, ok := th.parseRope(a[0].(Slice).a)
+		return mkBool(ok)
+	})
 	reg("encoding/json.NewDecoder", func(th *Thread, fn *ssa.Function, a []Value) Value {
 		cell := new(Value)
 		*cell = zero(mustDeref(fn.Signature.Results().At(0).Type()))
@@ -556,7 +560,7 @@ func (th *Thread) marshalValue(v Value, t types.Type) (*Token, Value) {
 			if !ok {
 				return nil, th.jsonError("error calling MarshalJSON: invalid output")
 			}
-			return tk, nil
+			return th.compactToken(tk), nil // Marshaler output is compacted
 		}
 	}
 	switch u := t.Underlying().(type) {
